@@ -183,13 +183,16 @@ HandleSnapshot(i, s, m) ==
   IN IF sn.idx <= s.commit /\ Mut # "snapbackward" THEN {ack(s)}
      ELSE IF sn.idx <= Last(s) /\ sn.idx >= s.off /\ TermAt(s, sn.idx) = sn.term
      THEN {ack([s EXCEPT !.commit = Max(@, sn.idx)])}
-     ELSE IF Members(s) # {} /\ ~s.isl /\ i \in sn.learners THEN {ack(s)}
+     ELSE IF i \in s.voters /\ ~s.isl /\ i \in sn.learners THEN {ack(s)}   \* a voter is never demoted by a snapshot
      ELSE LET s2 == [s EXCEPT !.log = <<>>, !.off = sn.idx, !.offTerm = sn.term, !.commit = sn.idx,
                               !.stable = sn.idx, !.psnap = sn, !.voters = sn.voters, !.learners = sn.learners,
                               !.isl = IF i \in sn.voters THEN FALSE ELSE IF i \in sn.learners THEN TRUE ELSE @,
                               !.match = [j \in Server |-> IF j = i THEN sn.idx ELSE 0],
                               !.nx = [j \in Server |-> sn.idx + 1]]
           IN {Res(s2, {Resp("MsgAppResp", i, m.from, s2.term, sn.idx, FALSE, 0)})}
+             \* the code also refuses when the replica is in nobody's voter set but not flagged learner
+             \* (finding raft-restarted-learner-rejects-snapshot); refusing is an omission and accepted
+             \cup (IF Members(s) # {} /\ ~s.isl /\ i \in sn.learners THEN {ack(s)} ELSE {})
 
 \* ---- proposals (stepLeader MsgProp, with the pendingConf downgrade)
 ProposeRes(i, s, e) ==
